@@ -102,10 +102,26 @@ def run(ctx):
             else:
                 ctx.ob("C19.R3", site, "the unguarded fall-back is the widest type S3", d == 3, construct="fallback", node=node)
     if loop:
-        incs = [n for n in loop[0].body if isinstance(n, ast.AugAssign) and norm(n.target) == "address" and isinstance(n.op, ast.Add) and norm(n.value) == "len(chunk)"]
-        ctx.ob("C19.R3", site, "record address advances by the chunk length", bool(incs), construct="advance")
-        rec = [c for c in calls_in(loop[0], "SRecord")]
-        ctx.ob("C19.R3", site, "each data record carries (type, running address, chunk)", bool(rec) and [norm(a) for a in rec[0].args[1:]] == ["address", "chunk"] and bool(incs) and incs[0].lineno > rec[0].lineno, construct="data-record")
-        ctx.ob("C19.R3", site, "all of the section's data is chunked", norm(loop[0].iter) in ("chunks(data)", "chunks(section.data)"), construct="all-data")
+        lp = loop[0]
+        rec = [c for c in calls_in(lp, "SRecord")]
+        it = lp.iter
+        if isinstance(it, ast.Call) and call_name(it) == "chunks":
+            incs = [n for n in lp.body if isinstance(n, ast.AugAssign) and norm(n.target) == "address" and isinstance(n.op, ast.Add) and norm(n.value) == "len(chunk)"]
+            ctx.ob("C19.R3", site, "record address advances by the chunk length", bool(incs), construct="advance")
+            ctx.ob("C19.R3", site, "each data record carries (type, running address, chunk)", bool(rec) and [norm(a) for a in rec[0].args[1:]] == ["address", "chunk"] and bool(incs) and incs[0].lineno > rec[0].lineno, construct="data-record")
+            ctx.ob("C19.R3", site, "all of the section's data is chunked", norm(it) in ("chunks(data)", "chunks(section.data)"), construct="all-data")
+        elif isinstance(it, ast.Call) and call_name(it) == "range" and len(it.args) == 3 and isinstance(lp.target, ast.Name):
+            i = lp.target.id
+            start_, stop, step = it.args
+            ok_cover = norm(start_) == "0" and sym.affine(stop, {}) in (sym.atom("len(data)"), sym.atom("len(section.data)"))
+            ctx.ob("C19.R3", site, "the offsets 0, k, 2k, ... run up to len(data) so that every byte is in some chunk", ok_cover, construct="all-data", detail=norm(it))
+            ch = [v for v in assigned_values(lp, "chunk")]
+            ok_sl = bool(ch) and norm(ch[0]) in ("data[%s:%s + %s]" % (i, i, norm(step)), "section.data[%s:%s + %s]" % (i, i, norm(step)))
+            ctx.ob("C19.R3", site, "chunk = data[offset : offset + step]", ok_sl, construct="advance", detail=norm(ch[0]) if ch else "")
+            a1 = sym.affine(rec[0].args[1], sym.single_assign_env(ws)) if rec else None
+            ok_ad = a1 is not None and a1.terms.get(i) == 1 and any("address" in k for k in a1.terms if k != i) and norm(rec[0].args[2]) == "chunk"
+            ctx.ob("C19.R3", site, "each data record carries (type, section address + offset, chunk)", ok_ad, construct="data-record", detail=norm(rec[0]) if rec else "")
+        else:
+            ctx.undecided("C19.R3", site, "chunking loop not recognised: %s" % norm(it))
     st = [v for v in assigned_values(ws, "address") if not isinstance(v, ast.AugAssign)]
     ctx.ob("C19.R3", site, "the first record address is the section's address", bool(st) and norm(st[0]) in ("section.address", "obj.get_section('code').address"), construct="start-address", detail=norm(st[0]) if st else "")
